@@ -3,5 +3,6 @@ CONSTANTS
   Libraries <- LibrariesT
   Rewards <- RewardsC
   MaxFamily = 5
-  PrevOffset = 16384
-INVARIANTS OperandsValid ShapesCovered CarelessKilled ShapeVerdicts AggregateFaithful DeaggregateRemainder PlanChecks BlockValid LibrariesNonDegenerate
+  PrevOffsets = {0, 16384}
+  MaxFamilyOf <- MaxFamilyT
+INVARIANTS OperandsValid ShapesCovered CancellationsCovered VariantsCovered CarelessKilled ShapeVerdicts AggregateFaithful DeaggregateRemainder PlanChecks HydrateIdentity HydrateViaPoolIdentity BlockValid LibrariesNonDegenerate
